@@ -83,3 +83,22 @@ def symm_family(n, count, seed=12345, density=3):
 
 TUNINGS["t_sym"] = (4, 6, 8, 20, 20, 20)     # relaxed supernodes up to 6 columns: heap_relax_snode / relax_snode subtree logic
 TUNINGS["t_dflt"] = (8, 10, 12, 20, 20, 20)  # close to the library defaults (relax 10)
+
+
+def matchable_family(n, count, seed=4242, density=4):
+    """deterministic family of square patterns that contain a perfect matching (a random permutation plus random extra entries, density/10)"""
+    out = []; x = seed
+    def rnd():
+        nonlocal x
+        x = (1103515245 * x + 12345) & 0x7fffffff
+        return x >> 8
+    for _ in range(count):
+        p = list(range(n))
+        for i in range(n - 1, 0, -1):
+            j = rnd() % (i + 1); p[i], p[j] = p[j], p[i]
+        e = {(p[j], j) for j in range(n)}
+        for i in range(n):
+            for j in range(n):
+                if rnd() % 10 < density: e.add((i, j))
+        out.append(pat_bits(n, n, e))
+    return list(dict.fromkeys(out))
